@@ -12,8 +12,8 @@ TRACE_BUILTINS = {"ret_last", "ncalls", "notafter", "never", "count", "any", "al
 def uses_trace(ast):
     if not isinstance(ast, tuple):
         return False
-    if ast[0] == "call" and ast[1][0] == "id" and ast[1][1] in TRACE_BUILTINS:
-        return True
+    if ast[0] == "call" and ast[1][0] == "id" and (ast[1][1] in TRACE_BUILTINS or ast[1][1] == "now"):
+        return True     # (now(i) speaks about this activation's own clock readings: never assumed at a call site)
     if ast[0] == "id" and ast[1] == "untouched":
         return True
     return any(uses_trace(x) for x in ast[1:] if isinstance(x, (tuple, list))) or \
